@@ -200,6 +200,57 @@ def R3_search_siblings(run):
               detail="floor division (hand-written or div_euclid by a widened unsigned spacing)")
 
 
+def R3b_array_selection(run):
+    run.title("R3b", "the sparse-swap builder names the arrays the search will walk: a_to_b the current array and the two below; b_to_a the current and the two above, shifted "
+                     "up by one exactly when tick_current + spacing >= start of the next array (the b_to_a search starts one spacing past the current tick)")
+    facts = run.facts
+    fn = facts.need_fn("util::sparse_swap::get_start_tick_indexes")
+    run.touch(fn)
+
+    def atom(t):
+        t = strip(t)
+        if t[0] == "field" and t[2] == "tick_current_index":
+            return "C"
+        if t[0] == "field" and t[2] == "tick_spacing":
+            return "T"
+        if t[0] == "call" and t[1].endswith("floor_division") and len(t[2]) == 2 and atom(t[2][0]) == "C" and poly(t[2][1], atom) == {("T",): 88}:
+            return "q"
+        return show(t, True)
+
+    def offsets(pv):
+        out = set()
+        for bi, t in fn.calls():
+            if (callee_path(t) or "").rsplit("::", 1)[-1] in ("iter", "into_iter") and not fn.blocks[bi]["c"] and (pv.flow is None or pv.flow.state_in[bi] is not None):
+                for l in leaves(pv.operand(t["a"][0], bi, len(fn.blocks[bi]["s"]))):
+                    l = strip(l)
+                    if l[0] == "array":
+                        out.add(tuple(const_val(x) for x in l[1]))
+        return out
+    got_ab = offsets(prov_of(fn, {"a_to_b": True}))
+    run.check("R3b", "offsets[a_to_b=1]", got_ab == {(0, -1, -2)}, "a_to_b names arrays at offsets %s, expected [0, -1, -2]" % sorted(got_ab), loc=fn.loc(), detail="[0, -1, -2]")
+    sel = [at for at in A.atoms(fn, {"a_to_b": False}) if at.cond() and not is_param(at.term, "a_to_b")]
+    ok = len(sel) == 1 and sel[0].cond()[0] in ("Ge", "Gt", "Le", "Lt")
+    why = "%d selecting test(s)" % len(sel)
+    if ok:
+        at = sel[0]
+        op, a, b = at.cond()
+        if op in ("Le", "Lt"):
+            op, a, b = {"Le": "Ge", "Lt": "Gt"}[op], b, a
+        d = dict(poly(a, atom))
+        for m, c in poly(b, atom).items():
+            d[m] = d.get(m, 0) - c
+        if op == "Gt":
+            d[()] = d.get((), 0) - 1
+        d = {m: c for m, c in d.items() if c}
+        want = {("C",): 1, ("T",): -87, tuple(sorted(("q", "T"))): -88}
+        t_off = offsets(prov_assuming(fn, [(at, True)], ctx={"a_to_b": False}))
+        f_off = offsets(prov_assuming(fn, [(at, False)], ctx={"a_to_b": False}))
+        ok = d == want and t_off == {(1, 2, 3)} and f_off == {(0, 1, 2)}
+        why = "shifted iff %s >= 0; shifted -> %s, else %s" % (show_poly(d), sorted(t_off), sorted(f_off))
+    run.check("R3b", "offsets[a_to_b=0]", ok, "b_to_a array selection: %s; expected [1, 2, 3] iff tick_current + spacing >= next array's start, else [0, 1, 2]" % why, loc=fn.loc(),
+              detail="shifted iff C + T >= floor(C / 88T) * 88T + 88T")
+
+
 def R4_sequence(run):
     run.title("R4", "get_next_initialized_tick_index: index past the supplied arrays => error; no tick found: a_to_b at the minimum array => MIN_TICK_INDEX, b_to_a at the maximum "
                     "array => MAX_TICK_INDEX, last supplied array => its first / last tick, otherwise continue in the next array from its edge in trade direction")
@@ -409,4 +460,4 @@ def R7_cross_checks(run):
     C15.R5b_remaining_accounts(RuleProxy(run, 'R7'))
 
 
-RULES = [R1_loaders, R2_proxy_and_order, R3_search_siblings, R4_sequence, R5_loop_cursor, R6_array_grid, R7_cross_checks]
+RULES = [R1_loaders, R2_proxy_and_order, R3_search_siblings, R3b_array_selection, R4_sequence, R5_loop_cursor, R6_array_grid, R7_cross_checks]
